@@ -17,6 +17,9 @@ import sys
 
 class TT():
 
+    # numpy arrays on the left of an operator defer to the reflected methods of this class (which reject them) instead of broadcasting over them
+    __array_ufunc__ = None
+
     # cores : list[tn.tensor]
     # """ The TT cores as a list of `torch.tensor` instances."""
 
